@@ -12,6 +12,24 @@
 #include <fcppt/reference_comparison.hpp>
 #include <fcppt/reference_hash.hpp>
 #include <fcppt/reference_std_hash.hpp>
+#include <fcppt/reference_to_const.hpp>
+#include <fcppt/reference_to_base.hpp>
+#include <fcppt/make_cref.hpp>
+#include <fcppt/static_pointer_cast.hpp>
+#include <fcppt/dynamic_pointer_cast.hpp>
+#include <fcppt/const_pointer_cast.hpp>
+#include <fcppt/unit.hpp>
+#include <fcppt/unit_comparison.hpp>
+#include <fcppt/iterator/make_range.hpp>
+#include <fcppt/iterator/range_comparison.hpp>
+#include <fcppt/iterator/range_impl.hpp>
+#include <fcppt/optional/assign.hpp>
+#include <fcppt/record/get.hpp>
+#include <fcppt/record/set.hpp>
+#include <fcppt/tuple/get.hpp>
+#include <fcppt/math/vector/arithmetic.hpp>
+#include <fcppt/math/vector/to_dim.hpp>
+#include <fcppt/variant/get_unsafe.hpp>
 #include <fcppt/shared_ptr_hash_impl.hpp>
 #include <fcppt/shared_ptr_impl.hpp>
 #include <fcppt/shared_ptr_std_hash.hpp>
@@ -22,7 +40,18 @@
 #include <fcppt/strong_typedef_hash.hpp>
 #include <fcppt/strong_typedef_impl.hpp>
 #include <fcppt/strong_typedef_std_hash.hpp>
+#include <fcppt/strong_typedef_apply.hpp>
+#include <fcppt/strong_typedef_construct_cast.hpp>
+#include <fcppt/strong_typedef_input.hpp>
+#include <fcppt/strong_typedef_map.hpp>
+#include <fcppt/strong_typedef_output.hpp>
+#include <fcppt/no_init.hpp>
+#include <fcppt/cast/static_cast_fun.hpp>
 #include <fcppt/unique_ptr_impl.hpp>
+#include <fcppt/unique_ptr_to_base.hpp>
+#include <fcppt/unique_ptr_to_const.hpp>
+#include <fcppt/weak_ptr_impl.hpp>
+#include <fcppt/default_deleter.hpp>
 #include <fcppt/array/comparison.hpp>
 #include <fcppt/array/object_impl.hpp>
 #include <fcppt/container/bitfield/comparison.hpp>
@@ -57,6 +86,7 @@
 #include <fcppt/math/vector/std_hash.hpp>
 #include <fcppt/optional/comparison.hpp>
 #include <fcppt/optional/object_impl.hpp>
+#include <fcppt/hash.hpp>
 #include <fcppt/range/hash.hpp>
 #include <fcppt/record/comparison.hpp>
 #include <fcppt/record/element.hpp>
@@ -72,8 +102,12 @@
 #include <array>
 #include <cstddef>
 #include <cstdint>
+#include <cstring>
 #include <functional>
+#include <new>
 #include <limits>
+#include <memory>
+#include <sstream>
 #include <optional>
 #include <string>
 #include <type_traits>
@@ -98,6 +132,10 @@ struct st_inst
 {
   using st = fcppt::strong_typedef<T, st_tag>;
   static constexpr bool sgn = std::is_signed_v<T>;
+  // narrower than int: the operands of the built-in operators are promoted to int.  The binary / unary operators
+  // of strong_typedef brace-initialise the result from an int there (a narrowing conversion, ill-formed), so only
+  // the assigning operators, ++/--, the comparisons, the hash and type_iso are observed for these types.
+  static constexpr bool narrow = sizeof(T) < sizeof(int);
   static constexpr T tmin = std::numeric_limits<T>::min();
   static constexpr T tmax = std::numeric_limits<T>::max();
 
@@ -106,8 +144,9 @@ struct st_inst
   // wrapped result next to the plain operator on the plain values: "!" marks a difference
   static std::string both(T wrapped, T plain) { return num(wrapped) + (wrapped == plain ? "" : "!"); }
 
-  template <typename F>
-  static std::string step(T a, bool ub, F f)
+  // f: the wrapped operation on x; g: the same built-in operation on a plain T
+  template <typename F, typename G>
+  static std::string step(T a, bool ub, F f, G g)
   {
     if (ub)
       return "ub";
@@ -116,50 +155,82 @@ struct st_inst
     std::string s = num(x.get()) + "/" + num(r.second);
     if (r.first != nullptr && r.first != &x)
       s += "!ref";
+    T p{a};
+    T const pr = g(p);
+    if (p != x.get() || pr != r.second)
+      s += "!plain";
     return s;
   }
+
+  struct ovf
+  {
+    bool add, sub, mul, neg, inc, dec;
+  };
+
+  static ovf overflow(T a, T b)
+  {
+    if constexpr (narrow)
+    {
+      // computed in int: only the product of two values can leave the range of int (unsigned short)
+      long long const p = static_cast<long long>(a) * static_cast<long long>(b);
+      return ovf{false, false, p > std::numeric_limits<int>::max() || p < std::numeric_limits<int>::min(), false, false,
+                 false};
+    }
+    else
+    {
+      T tmp{};
+      return ovf{sgn && __builtin_add_overflow(a, b, &tmp), sgn && __builtin_sub_overflow(a, b, &tmp),
+                 sgn && __builtin_mul_overflow(a, b, &tmp), sgn && a == tmin, sgn && a == tmax, sgn && a == tmin};
+    }
+  }
+
+  using rp = std::pair<st const *, T>;
+  static rp by_ref(st &q) { return rp{&q, q.get()}; }
+  static rp by_val(st const &q) { return rp{nullptr, q.get()}; }
 
   static std::string line(T a, T b)
   {
     st const l{a};
     st const r{b};
-    T tmp{};
-    bool const oa = sgn && __builtin_add_overflow(a, b, &tmp);
-    bool const os = sgn && __builtin_sub_overflow(a, b, &tmp);
-    bool const om = sgn && __builtin_mul_overflow(a, b, &tmp);
-    bool const on = sgn && a == tmin;
-    bool const oi = sgn && a == tmax;
-    bool const od = sgn && a == tmin;
+    ovf const o{overflow(a, b)};
     std::string s;
-    s += "add=" + (oa ? std::string{"ub"} : both((l + r).get(), static_cast<T>(a + b)));
-    s += " sub=" + (os ? std::string{"ub"} : both((l - r).get(), static_cast<T>(a - b)));
-    s += " mul=" + (om ? std::string{"ub"} : both((l * r).get(), static_cast<T>(a * b)));
-    s += " neg=" + (on ? std::string{"ub"} : both((-l).get(), static_cast<T>(-a)));
-    s += " and=" + both((l & r).get(), static_cast<T>(a & b));
-    s += " or=" + both((l | r).get(), static_cast<T>(a | b));
-    s += " xor=" + both((l ^ r).get(), static_cast<T>(a ^ b));
-    s += " not=" + both((~l).get(), static_cast<T>(~a));
-    s += " preinc=" + step(a, oi, [](st &x) { st &q = ++x; return std::make_pair(static_cast<st const *>(&q), q.get()); });
-    s += " predec=" + step(a, od, [](st &x) { st &q = --x; return std::make_pair(static_cast<st const *>(&q), q.get()); });
-    s += " postinc=" + step(a, oi, [](st &x) { st const q = x++; return std::make_pair(static_cast<st const *>(nullptr), q.get()); });
-    s += " postdec=" + step(a, od, [](st &x) { st const q = x--; return std::make_pair(static_cast<st const *>(nullptr), q.get()); });
-    s += " addas=" + step(a, oa, [&r](st &x) { st &q = (x += r); return std::make_pair(static_cast<st const *>(&q), q.get()); });
-    s += " subas=" + step(a, os, [&r](st &x) { st &q = (x -= r); return std::make_pair(static_cast<st const *>(&q), q.get()); });
-    s += " mulas=" + step(a, om, [&r](st &x) { st &q = (x *= r); return std::make_pair(static_cast<st const *>(&q), q.get()); });
-    s += " andas=" + step(a, false, [&r](st &x) { st &q = (x &= r); return std::make_pair(static_cast<st const *>(&q), q.get()); });
-    s += " oras=" + step(a, false, [&r](st &x) { st &q = (x |= r); return std::make_pair(static_cast<st const *>(&q), q.get()); });
-    s += " xoras=" + step(a, false, [&r](st &x) { st &q = (x ^= r); return std::make_pair(static_cast<st const *>(&q), q.get()); });
+    if constexpr (narrow)
+      s += "narrow";
+    else
+    {
+      s += "add=" + (o.add ? std::string{"ub"} : both((l + r).get(), static_cast<T>(a + b)));
+      s += " sub=" + (o.sub ? std::string{"ub"} : both((l - r).get(), static_cast<T>(a - b)));
+      s += " mul=" + (o.mul ? std::string{"ub"} : both((l * r).get(), static_cast<T>(a * b)));
+      s += " neg=" + (o.neg ? std::string{"ub"} : both((-l).get(), static_cast<T>(-a)));
+      s += " and=" + both((l & r).get(), static_cast<T>(a & b));
+      s += " or=" + both((l | r).get(), static_cast<T>(a | b));
+      s += " xor=" + both((l ^ r).get(), static_cast<T>(a ^ b));
+      s += " not=" + both((~l).get(), static_cast<T>(~a));
+    }
+    s += " preinc=" + step(a, o.inc, [](st &x) { return by_ref(++x); }, [](T &p) { return ++p; });
+    s += " predec=" + step(a, o.dec, [](st &x) { return by_ref(--x); }, [](T &p) { return --p; });
+    s += " postinc=" + step(a, o.inc, [](st &x) { return by_val(x++); }, [](T &p) { return p++; });
+    s += " postdec=" + step(a, o.dec, [](st &x) { return by_val(x--); }, [](T &p) { return p--; });
+    s += " addas=" + step(a, o.add, [&r](st &x) { return by_ref(x += r); }, [b](T &p) { return p += b; });
+    s += " subas=" + step(a, o.sub, [&r](st &x) { return by_ref(x -= r); }, [b](T &p) { return p -= b; });
+    s += " mulas=" + step(a, o.mul, [&r](st &x) { return by_ref(x *= r); }, [b](T &p) { return p *= b; });
+    s += " andas=" + step(a, false, [&r](st &x) { return by_ref(x &= r); }, [b](T &p) { return p &= b; });
+    s += " oras=" + step(a, false, [&r](st &x) { return by_ref(x |= r); }, [b](T &p) { return p |= b; });
+    s += " xoras=" + step(a, false, [&r](st &x) { return by_ref(x ^= r); }, [b](T &p) { return p ^= b; });
     if (r.get() != b || l.get() != a)
       s += " operand-changed";
     bool const e = l == r;
     s += " lt=" + b01(l < r) + " le=" + b01(l <= r) + " gt=" + b01(l > r) + " ge=" + b01(l >= r) + " eq=" + b01(e) +
          " ne=" + b01(l != r);
+    if ((l < r) != (a < b) || (l <= r) != (a <= b) || (l > r) != (a > b) || (l >= r) != (a >= b) || e != (a == b) ||
+        (l != r) != (a != b))
+      s += "!plain";
     std::string heq = "-";
     if (e)
     {
       std::size_t const h1 = fcppt::strong_typedef_hash<st>{}(l);
       std::size_t const h2 = std::hash<st>{}(r);
-      heq = b01(h1 == h2 && h1 == std::hash<T>{}(a));
+      heq = b01(h1 == h2 && h1 == std::hash<T>{}(a) && fcppt::hash(l) == h1);
     }
     s += " heq=" + heq;
     using iso = fcppt::type_iso::transform<st>;
@@ -169,10 +240,129 @@ struct st_inst
     return s;
   }
 
-  static bool in_range(long long lo, long long hi, std::string const &s, T &out)
+  // the SAME object on both sides of every binary / assigning operator
+  static std::string self_line(T a)
   {
-    (void)lo;
-    (void)hi;
+    ovf const o{overflow(a, a)};
+    std::string s;
+    if constexpr (narrow)
+      s += "narrow";
+    else
+    {
+      st const x{a};
+      s += "add=" + (o.add ? std::string{"ub"} : both((x + x).get(), static_cast<T>(a + a)));
+      s += " sub=" + (o.sub ? std::string{"ub"} : both((x - x).get(), static_cast<T>(a - a)));
+      s += " mul=" + (o.mul ? std::string{"ub"} : both((x * x).get(), static_cast<T>(a * a)));
+      s += " and=" + both((x & x).get(), static_cast<T>(a & a));
+      s += " or=" + both((x | x).get(), static_cast<T>(a | a));
+      s += " xor=" + both((x ^ x).get(), static_cast<T>(a ^ a));
+      if (x.get() != a)
+        s += " operand-changed";
+    }
+    s += " addas=" + step(a, o.add, [](st &x) { return by_ref(x += x); }, [](T &p) { return p += p; });
+    s += " subas=" + step(a, o.sub, [](st &x) { return by_ref(x -= x); }, [](T &p) { return p -= p; });
+    s += " mulas=" + step(a, o.mul, [](st &x) { return by_ref(x *= x); }, [](T &p) { return p *= p; });
+    s += " andas=" + step(a, false, [](st &x) { return by_ref(x &= x); }, [](T &p) { return p &= p; });
+    s += " oras=" + step(a, false, [](st &x) { return by_ref(x |= x); }, [](T &p) { return p |= p; });
+    s += " xoras=" + step(a, false, [](st &x) { return by_ref(x ^= x); }, [](T &p) { return p ^= p; });
+    s += " asg=" + step(a, false, [](st &x) { st &y = x; return by_ref(x = y); }, [](T &p) { return p; });
+    s += " mvasg=" + step(a, false, [](st &x) { st &y = x; return by_ref(x = std::move(y)); }, [](T &p) { return p; });
+    st const c{a};
+    bool const e = c == c;
+    s += " lt=" + b01(c < c) + " le=" + b01(c <= c) + " gt=" + b01(c > c) + " ge=" + b01(c >= c) + " eq=" + b01(e) +
+         " ne=" + b01(c != c);
+    s += " heq=" + (e ? b01(fcppt::strong_typedef_hash<st>{}(c) == std::hash<st>{}(c)) : std::string{"-"});
+    return s;
+  }
+
+  // members and helper functions of the class itself
+  static std::string mem_line(T a, T b)
+  {
+    std::string s;
+    {
+      st x{a};
+      T &g = x.get();
+      g = b; // writing through get() changes the wrapped object
+      st const &cx = x;
+      s += "set=" + num(cx.get()) + (&g == &x.get() && &cx.get() == &g ? "" : "!addr");
+    }
+    {
+      st const c{a};
+      s += " cget=" + num(c.get());
+    }
+    {
+      st n{fcppt::no_init{}};
+      n.get() = a;
+      s += " noinit=" + num(n.get());
+      st m{fcppt::no_init{}};
+      m = st{b};
+      s += "/" + num(m.get());
+    }
+    {
+      st x{a};
+      st c{x};
+      x.get() = b;
+      s += " copy=" + num(c.get()) + "/" + num(x.get());
+    }
+    {
+      st x{a};
+      st c{b};
+      st &q = (c = x);
+      x.get() = b;
+      s += " cpas=" + num(c.get()) + "/" + num(x.get()) + (&q == &c ? "" : "!ref");
+    }
+    {
+      st x{a};
+      st c{std::move(x)};
+      st d{b};
+      d = std::move(c);
+      s += " mv=" + num(d.get());
+    }
+    s += " size=" + b01(sizeof(st) == sizeof(T) && alignof(st) == alignof(T));
+    {
+      st const x{a};
+      st const y{b};
+      auto const f1 = [b](T v) { return static_cast<T>(v ^ b); };
+      auto const m1 = fcppt::strong_typedef_map(x, f1);
+      auto const m2 = fcppt::strong_typedef_map(st{a}, f1);
+      static_assert(std::is_same_v<std::remove_cv_t<decltype(m1)>, st>);
+      s += " map=" + both(m1.get(), static_cast<T>(a ^ b)) + "/" + both(m2.get(), static_cast<T>(a ^ b));
+      auto const f2 = [](T u, T v) { return static_cast<T>(u & static_cast<T>(~v)); };
+      auto const a2 = fcppt::strong_typedef_apply(f2, x, y);
+      auto const a3 = fcppt::strong_typedef_apply(f2, st{a}, y);
+      static_assert(std::is_same_v<std::remove_cv_t<decltype(a2)>, st>);
+      s += " apply=" + both(a2.get(), static_cast<T>(a & static_cast<T>(~b))) + "/" + both(a3.get(), a2.get());
+      auto const a1 = fcppt::strong_typedef_apply([](T u) { return static_cast<T>(~u); }, x);
+      s += " apply1=" + both(a1.get(), static_cast<T>(~a));
+      // the same object as both arguments
+      auto const as = fcppt::strong_typedef_apply(f2, x, x);
+      s += " applyself=" + both(as.get(), static_cast<T>(a & static_cast<T>(~a)));
+      if (x.get() != a || y.get() != b)
+        s += " operand-changed";
+    }
+    {
+      using wide = std::conditional_t<sgn, long long, unsigned long long>;
+      st const c{fcppt::strong_typedef_construct_cast<st, fcppt::cast::static_cast_fun>(static_cast<wide>(b))};
+      s += " ccast=" + num(c.get());
+    }
+    {
+      // << and >> are those of the wrapped type (a character for the 8-bit types)
+      std::ostringstream o1, o2;
+      o1 << st{a};
+      o2 << a;
+      std::istringstream i1{o2.str() + " " + std::to_string(b)}, i2{o2.str() + " " + std::to_string(b)};
+      st x{fcppt::no_init{}};
+      x.get() = T{};
+      T p{};
+      i1 >> x;
+      i2 >> p;
+      s += " out=" + b01(o1.str() == o2.str()) + " in=" + b01(x.get() == p && i1.good() == i2.good() && i1.tellg() == i2.tellg());
+    }
+    return s;
+  }
+
+  static bool in_range(std::string const &s, T &out)
+  {
     try
     {
       if constexpr (sgn)
@@ -199,28 +389,49 @@ struct st_inst
     }
   }
 
+  template <typename F>
+  static std::string digest(T lo, T hi, F f)
+  {
+    std::uint64_t h = vh::fnv_init;
+    for (T b = lo;; ++b)
+    {
+      h = vh::fnv(h, f(b));
+      if (b == hi)
+        break;
+    }
+    return "D " + vh::hex64(h);
+  }
+
   static std::string handle(std::vector<std::string> const &t)
   {
-    if (t[0] == "st" && t.size() == 4)
+    if ((t[0] == "st" || t[0] == "stmem") && t.size() == 4)
     {
       T a{}, b{};
-      if (!in_range(0, 0, t[2], a) || !in_range(0, 0, t[3], b))
+      if (!in_range(t[2], a) || !in_range(t[3], b))
         return "bad-op";
-      return line(a, b);
+      return t[0] == "st" ? line(a, b) : mem_line(a, b);
     }
-    if (t[0] == "sts" && t.size() == 5)
+    if (t[0] == "stself" && t.size() == 3)
+    {
+      T a{};
+      if (!in_range(t[2], a))
+        return "bad-op";
+      return self_line(a);
+    }
+    if ((t[0] == "sts" || t[0] == "stmems") && t.size() == 5)
     {
       T a{}, lo{}, hi{};
-      if (!in_range(0, 0, t[2], a) || !in_range(0, 0, t[3], lo) || !in_range(0, 0, t[4], hi) || lo > hi)
+      if (!in_range(t[2], a) || !in_range(t[3], lo) || !in_range(t[4], hi) || lo > hi)
         return "bad-op";
-      std::uint64_t h = vh::fnv_init;
-      for (T b = lo;; ++b)
-      {
-        h = vh::fnv(h, line(a, b));
-        if (b == hi)
-          break;
-      }
-      return "D " + vh::hex64(h);
+      bool const mem = t[0] == "stmems";
+      return digest(lo, hi, [a, mem](T b) { return mem ? mem_line(a, b) : line(a, b); });
+    }
+    if (t[0] == "stselfs" && t.size() == 4)
+    {
+      T lo{}, hi{};
+      if (!in_range(t[2], lo) || !in_range(t[3], hi) || lo > hi)
+        return "bad-op";
+      return digest(lo, hi, [](T a) { return self_line(a); });
     }
     return "bad-op";
   }
@@ -237,13 +448,33 @@ enum class e3
   fcppt_maximum = v2
 };
 
+enum class e9
+{
+  v0,
+  v1,
+  v2,
+  v3,
+  v4,
+  v5,
+  v6,
+  v7,
+  v8,
+  fcppt_maximum = v8
+};
+
 FCPPT_RECORD_MAKE_LABEL(label0);
 FCPPT_RECORD_MAKE_LABEL(label1);
+
+// set when fcppt::hash(v) (hash.hpp: the function every range hash folds over) is not std::hash<T>{}(v)
+bool g_hash_mismatch = false;
 
 template <typename T>
 std::size_t std_hash(T const &v)
 {
-  return std::hash<T>{}(v);
+  std::size_t const h = std::hash<T>{}(v);
+  if (fcppt::hash(v) != h)
+    g_hash_mismatch = true;
+  return h;
 }
 
 // both hash objects must agree; otherwise a value that never equals itself comes out
@@ -259,37 +490,98 @@ struct base_tr
   static constexpr bool has_lt = false;
   static constexpr bool has_six = false;
   static constexpr bool has_hash = false;
+  // number of different ways (`routes`) by which make() reaches the same value: constructors, assignment over an
+  // object that held something else, element-wise writes, erase after insert …  The value model does not see the route.
+  static constexpr unsigned routes = 1;
   template <typename T>
   static std::string extra(T const &, T const &)
   {
     return "";
   }
+  // types with padding or inactive bytes offer make_in: the value constructed IN PLACE (by its value constructor, not by a
+  // copy) in a buffer the caller has filled with a byte pattern, so that those bytes differ between equal values
+  static std::nullptr_t make_in(void *, V const &) { return nullptr; }
 };
 
 struct opt_tr : base_tr
 {
   using type = fcppt::optional::object<int>;
   static constexpr bool has_lt = true;
-  static std::optional<type> make(V const &l)
+  static constexpr unsigned routes = 3;
+  static type *make_in(void *buf, V const &l)
   {
-    if (l.empty())
-      return type{};
-    if (l.size() == 1)
-      return type{static_cast<int>(l[0])};
-    return std::nullopt;
+    return l.empty() ? new (buf) type() : new (buf) type(static_cast<int>(l[0]));
+  }
+  static std::optional<type> make(V const &l, unsigned route = 0)
+  {
+    if (l.size() > 1)
+      return std::nullopt;
+    type const direct{l.empty() ? type{} : type{static_cast<int>(l[0])}};
+    switch (route % routes)
+    {
+    case 0:
+      return direct;
+    case 1:
+    {
+      type r{77}; // copy-assigned over an object that holds something else
+      r = direct;
+      return r;
+    }
+    default:
+    {
+      type r{};
+      if (l.empty())
+      {
+        r = type{5};
+        r = type{}; // emptied again: the storage still holds the old bytes
+      }
+      else
+      {
+        int &x = fcppt::optional::assign(r, static_cast<int>(l[0]) ^ 1);
+        x ^= 1; // through the reference handed out by assign
+      }
+      return r;
+    }
+    }
   }
 };
 
 struct eith_tr : base_tr
 {
+  static fcppt::either::object<long, int> *make_in(void *buf, V const &l)
+  {
+    using type = fcppt::either::object<long, int>;
+    return l[0] == 0 ? new (buf) type(static_cast<long>(l[1])) : new (buf) type(static_cast<int>(l[1]));
+  }
   using type = fcppt::either::object<long, int>; // failure: long, success: int
-  static std::optional<type> make(V const &l)
+  static constexpr unsigned routes = 3;
+  static std::optional<type> make(V const &l, unsigned route = 0)
   {
     if (l.size() != 2 || l[0] < 0 || l[0] > 1)
       return std::nullopt;
-    if (l[0] == 0)
-      return type{static_cast<long>(l[1])};
-    return type{static_cast<int>(l[1])};
+    type const direct{l[0] == 0 ? type{static_cast<long>(l[1])} : type{static_cast<int>(l[1])}};
+    switch (route % routes)
+    {
+    case 0:
+      return direct;
+    case 1:
+    {
+      // assigned over an object holding the OTHER side with the same number
+      type r{l[0] == 0 ? type{static_cast<int>(l[1])} : type{static_cast<long>(l[1])}};
+      r = direct;
+      return r;
+    }
+    default:
+    {
+      // the same side with another number, then written through get_*_unsafe
+      type r{l[0] == 0 ? type{static_cast<long>(l[1] ^ 1)} : type{static_cast<int>(l[1] ^ 1)}};
+      if (l[0] == 0)
+        r.get_failure_unsafe() = static_cast<long>(l[1]);
+      else
+        r.get_success_unsafe() = static_cast<int>(l[1]);
+      return r;
+    }
+    }
   }
 };
 
@@ -297,15 +589,50 @@ struct var_tr : base_tr
 {
   using type = fcppt::variant::object<int, long, short>;
   static constexpr bool has_lt = true;
-  static std::optional<type> make(V const &l)
+  static constexpr unsigned routes = 3;
+  static type *make_in(void *buf, V const &l)
+  {
+    if (l[0] == 0)
+      return new (buf) type(static_cast<int>(l[1]));
+    if (l[0] == 1)
+      return new (buf) type(static_cast<long>(l[1]));
+    return new (buf) type(static_cast<short>(l[1]));
+  }
+  static type direct(long long i, long long x)
+  {
+    if (i == 0)
+      return type{static_cast<int>(x)};
+    if (i == 1)
+      return type{static_cast<long>(x)};
+    return type{static_cast<short>(x)};
+  }
+  static std::optional<type> make(V const &l, unsigned route = 0)
   {
     if (l.size() != 2 || l[0] < 0 || l[0] > 2)
       return std::nullopt;
-    if (l[0] == 0)
-      return type{static_cast<int>(l[1])};
-    if (l[0] == 1)
-      return type{static_cast<long>(l[1])};
-    return type{static_cast<short>(l[1])};
+    switch (route % routes)
+    {
+    case 0:
+      return direct(l[0], l[1]);
+    case 1:
+    {
+      // assigned over an object that holds a different alternative with the same number (inactive alternative)
+      type r{direct((l[0] + 1) % 3, ~l[1])}; // all the other bits set
+      r = direct(l[0], l[1]);
+      return r;
+    }
+    default:
+    {
+      type r{direct(l[0], l[1] ^ 1)};
+      if (l[0] == 0)
+        r.get_unsafe<int>() = static_cast<int>(l[1]);
+      else if (l[0] == 1)
+        r.get_unsafe<long>() = static_cast<long>(l[1]);
+      else
+        r.get_unsafe<short>() = static_cast<short>(l[1]);
+      return r;
+    }
+    }
   }
   static std::string extra(type const &a, type const &b)
   {
@@ -317,11 +644,22 @@ struct var_tr : base_tr
 struct tup_tr : base_tr
 {
   using type = fcppt::tuple::object<int, long, short>;
-  static std::optional<type> make(V const &l)
+  static constexpr unsigned routes = 2;
+  static type *make_in(void *buf, V const &l)
+  {
+    return new (buf) type(static_cast<int>(l[0]), static_cast<long>(l[1]), static_cast<short>(l[2]));
+  }
+  static std::optional<type> make(V const &l, unsigned route = 0)
   {
     if (l.size() != 3)
       return std::nullopt;
-    return type{static_cast<int>(l[0]), static_cast<long>(l[1]), static_cast<short>(l[2])};
+    if (route % routes == 0)
+      return type{static_cast<int>(l[0]), static_cast<long>(l[1]), static_cast<short>(l[2])};
+    type r{9, 9L, static_cast<short>(9)};
+    fcppt::tuple::get<2>(r) = static_cast<short>(l[2]);
+    fcppt::tuple::get<0>(r) = static_cast<int>(l[0]);
+    fcppt::tuple::get<1>(r) = static_cast<long>(l[1]);
+    return r;
   }
 };
 
@@ -329,11 +667,17 @@ struct arr_tr : base_tr
 {
   using type = fcppt::array::object<int, 3>;
   static constexpr bool has_hash = true;
-  static std::optional<type> make(V const &l)
+  static constexpr unsigned routes = 2;
+  static std::optional<type> make(V const &l, unsigned route = 0)
   {
     if (l.size() != 3)
       return std::nullopt;
-    return type{static_cast<int>(l[0]), static_cast<int>(l[1]), static_cast<int>(l[2])};
+    if (route % routes == 0)
+      return type{static_cast<int>(l[0]), static_cast<int>(l[1]), static_cast<int>(l[2])};
+    type r{9, 9, 9};
+    for (std::size_t i = 3; i-- > 0;)
+      r.get_unsafe(i) = static_cast<int>(l[i]);
+    return r;
   }
   static std::size_t hash(type const &v, bool &) { return fcppt::range::hash<type>{}(v); }
 };
@@ -341,11 +685,18 @@ struct arr_tr : base_tr
 struct earr_tr : base_tr
 {
   using type = fcppt::enum_::array<e3, int>;
-  static std::optional<type> make(V const &l)
+  static constexpr unsigned routes = 2;
+  static std::optional<type> make(V const &l, unsigned route = 0)
   {
     if (l.size() != 3)
       return std::nullopt;
-    return type{static_cast<int>(l[0]), static_cast<int>(l[1]), static_cast<int>(l[2])};
+    if (route % routes == 0)
+      return type{static_cast<int>(l[0]), static_cast<int>(l[1]), static_cast<int>(l[2])};
+    type r{9, 9, 9};
+    r[e3::v2] = static_cast<int>(l[2]);
+    r[e3::v0] = static_cast<int>(l[0]);
+    r[e3::v1] = static_cast<int>(l[1]);
+    return r;
   }
 };
 
@@ -355,11 +706,21 @@ struct rec_tr : base_tr
   using el1 = fcppt::record::element<label1, long>;
   using type = fcppt::record::object<el0, el1>;
   using perm = fcppt::record::object<el1, el0>;
-  static std::optional<type> make(V const &l)
+  static constexpr unsigned routes = 2;
+  static type *make_in(void *buf, V const &l)
+  {
+    return new (buf) type(label0{} = static_cast<int>(l[0]), label1{} = static_cast<long>(l[1]));
+  }
+  static std::optional<type> make(V const &l, unsigned route = 0)
   {
     if (l.size() != 2)
       return std::nullopt;
-    return type{label0{} = static_cast<int>(l[0]), label1{} = static_cast<long>(l[1])};
+    if (route % routes == 0)
+      return type{label0{} = static_cast<int>(l[0]), label1{} = static_cast<long>(l[1])};
+    type r{label1{} = 9L, label0{} = 9};
+    fcppt::record::set<label1>(r, static_cast<long>(l[1]));
+    fcppt::record::set<label0>(r, static_cast<int>(l[0]));
+    return r;
   }
   static std::string extra(type const &a, type const &b)
   {
@@ -379,11 +740,16 @@ struct sti_tr : base_tr
   static constexpr bool has_lt = true;
   static constexpr bool has_six = true;
   static constexpr bool has_hash = true;
-  static std::optional<type> make(V const &l)
+  static constexpr unsigned routes = 2;
+  static std::optional<type> make(V const &l, unsigned route = 0)
   {
     if (l.size() != 1)
       return std::nullopt;
-    return type{static_cast<int>(l[0])};
+    if (route % routes == 0)
+      return type{static_cast<int>(l[0])};
+    type r{fcppt::no_init{}};
+    r.get() = static_cast<int>(l[0]);
+    return r;
   }
   static std::size_t hash(type const &v, bool &ok)
   {
@@ -394,15 +760,67 @@ struct sti_tr : base_tr
 struct recu_tr : base_tr
 {
   using type = fcppt::recursive<int>;
-  static std::optional<type> make(V const &l)
+  static constexpr unsigned routes = 5;
+  static std::optional<type> make(V const &l, unsigned route = 0)
   {
     if (l.size() != 1)
       return std::nullopt;
-    if (l[0] % 2 == 0)
+    int const x = static_cast<int>(l[0]);
+    switch (route % routes)
+    {
+    case 0:
       return fcppt::make_recursive(static_cast<int>(l[0]));
-    return type{static_cast<int>(l[0])};
+    case 1:
+      return type{x}; // const lvalue constructor
+    case 2:
+    {
+      type const src{x};
+      type r{src}; // copy constructor: a new object
+      return r;
+    }
+    case 3:
+    {
+      type const src{x};
+      type r{x ^ 1};
+      r = src;  // copy assignment over another value
+      type &self = r;
+      r = self; // self-assignment keeps the value
+      return r;
+    }
+    default:
+    {
+      type src{x};
+      type r{x ^ 1};
+      r = std::move(src); // move assignment
+      r.get() ^= 1;       // writing through get()
+      r.get() ^= 1;
+      return r;
+    }
+    }
   }
 };
+
+template <typename T, std::size_t N>
+T make_math(V const &l, std::size_t off)
+{
+  if constexpr (N == 1)
+    return T{static_cast<int>(l[off])};
+  else if constexpr (N == 2)
+    return T{static_cast<int>(l[off]), static_cast<int>(l[off + 1])};
+  else if constexpr (N == 3)
+    return T{static_cast<int>(l[off]), static_cast<int>(l[off + 1]), static_cast<int>(l[off + 2])};
+  else
+    return T{static_cast<int>(l[off]), static_cast<int>(l[off + 1]), static_cast<int>(l[off + 2]), static_cast<int>(l[off + 3])};
+}
+
+template <typename T, std::size_t N>
+T make_math_by_element(V const &l, std::size_t off)
+{
+  T r{fcppt::no_init{}};
+  for (std::size_t i = N; i-- > 0;)
+    r.get_unsafe(i) = static_cast<int>(l[off + i]);
+  return r;
+}
 
 template <typename T, std::size_t N>
 struct mvec_tr : base_tr
@@ -411,14 +829,27 @@ struct mvec_tr : base_tr
   static constexpr bool has_lt = true;
   static constexpr bool has_six = true;
   static constexpr bool has_hash = true;
-  static std::optional<type> make(V const &l)
+  static constexpr unsigned routes = 3;
+  static std::optional<type> make(V const &l, unsigned route = 0)
   {
     if (l.size() != N)
       return std::nullopt;
-    if constexpr (N == 2)
-      return type{static_cast<int>(l[0]), static_cast<int>(l[1])};
-    else
-      return type{static_cast<int>(l[0]), static_cast<int>(l[1]), static_cast<int>(l[2])};
+    switch (route % routes)
+    {
+    case 0:
+      return make_math<type, N>(l, 0);
+    case 1:
+      return make_math_by_element<type, N>(l, 0);
+    default:
+    {
+      V other(l);
+      for (long long &x : other)
+        x = 9 - x;
+      type r{make_math<type, N>(other, 0)};
+      r = make_math<type, N>(l, 0); // assigned over other components
+      return r;
+    }
+    }
   }
   static std::size_t hash(type const &v, bool &) { return std_hash(v); }
   // vector<int,2> only: the right operand once more as a row view of a matrix (different storage type)
@@ -434,63 +865,141 @@ struct mvec_tr : base_tr
       std::string h = "-";
       if (e)
         h = b01(std_hash(a) == std::hash<std::remove_cv_t<decltype(view)>>{}(view));
-      // (the ordering operators do not instantiate for two different storage types: array_less takes one type)
-      return " mix=" + b01(e) + b01(a != view) + b01(view == a) + b01(view != a) + h;
+      // the ordering operators across two storage types (both directions)
+      std::string const ord = b01(a < view) + b01(a > view) + b01(a <= view) + b01(a >= view) + b01(view < a) + b01(view > a) +
+                              b01(view <= a) + b01(view >= a);
+      // a value constructed from the view (converting constructor) is the value
+      type const conv{view};
+      return " mix=" + b01(e) + b01(a != view) + b01(view == a) + b01(view != a) + h + " mixord=" + ord +
+             " conv=" + b01(conv == b && !(conv != b) && !(conv < b) && !(b < conv));
     }
     else
       return "";
   }
 };
 
+using vec1_tr = mvec_tr<fcppt::math::vector::static_<int, 1>, 1>;
 using vec2_tr = mvec_tr<fcppt::math::vector::static_<int, 2>, 2>;
 using vec3_tr = mvec_tr<fcppt::math::vector::static_<int, 3>, 3>;
+using vec4_tr = mvec_tr<fcppt::math::vector::static_<int, 4>, 4>;
 using dim2_tr = mvec_tr<fcppt::math::dim::static_<int, 2>, 2>;
+using dim3_tr = mvec_tr<fcppt::math::dim::static_<int, 3>, 3>;
 
+template <std::size_t R, std::size_t C>
 struct mat_tr : base_tr
 {
-  using type = fcppt::math::matrix::static_<int, 2, 2>;
+  using type = fcppt::math::matrix::static_<int, R, C>;
   static constexpr bool has_hash = true;
-  static std::optional<type> make(V const &l)
+  static constexpr unsigned routes = 2;
+  static std::optional<type> make(V const &l, unsigned route = 0)
   {
-    if (l.size() != 4)
+    if (l.size() != R * C)
       return std::nullopt;
-    return type{
-        fcppt::math::matrix::row(static_cast<int>(l[0]), static_cast<int>(l[1])),
-        fcppt::math::matrix::row(static_cast<int>(l[2]), static_cast<int>(l[3]))};
+    if (route % routes == 0)
+    {
+      auto const row = [&l](std::size_t r)
+      {
+        if constexpr (C == 2)
+          return fcppt::math::matrix::row(static_cast<int>(l[r * C]), static_cast<int>(l[r * C + 1]));
+        else
+          return fcppt::math::matrix::row(
+              static_cast<int>(l[r * C]), static_cast<int>(l[r * C + 1]), static_cast<int>(l[r * C + 2]));
+      };
+      static_assert(R == 2);
+      return type{row(0), row(1)};
+    }
+    type m{fcppt::no_init{}};
+    for (std::size_t r = R; r-- > 0;)
+      for (std::size_t c = 0; c < C; ++c)
+        m.get_unsafe(r).get_unsafe(c) = static_cast<int>(l[r * C + c]);
+    return m;
   }
   static std::size_t hash(type const &v, bool &) { return std_hash(v); }
 };
+using mat22_tr = mat_tr<2, 2>;
+using mat23_tr = mat_tr<2, 3>;
 
+template <std::size_t N>
 struct box_tr : base_tr
 {
-  using type = fcppt::math::box::object<int, 2>;
+  using type = fcppt::math::box::object<int, N>;
+  using vec = typename type::vector;
+  using dim = typename type::dim;
   static constexpr bool has_lt = true;
-  static std::optional<type> make(V const &l)
+  static constexpr unsigned routes = 3;
+  static std::optional<type> make(V const &l, unsigned route = 0)
   {
-    if (l.size() != 4)
+    if (l.size() != 2 * N)
       return std::nullopt;
-    return type{
-        type::vector{static_cast<int>(l[0]), static_cast<int>(l[1])},
-        type::dim{static_cast<int>(l[2]), static_cast<int>(l[3])}};
+    for (std::size_t i = 0; i < N; ++i)
+      if (__builtin_add_overflow_p(static_cast<int>(l[i]), static_cast<int>(l[N + i]), 0))
+        return std::nullopt; // pos + size must be an int (the class stores min and max)
+    switch (route % routes)
+    {
+    case 0:
+      return type{make_math<vec, N>(l, 0), make_math<dim, N>(l, N)};
+    case 1:
+    {
+      // the (min, max) constructor
+      V mx(N);
+      for (std::size_t i = 0; i < N; ++i)
+        mx[i] = l[i] + l[N + i];
+      return type{make_math<vec, N>(l, 0), make_math<vec, N>(mx, 0)};
+    }
+    default:
+    {
+      type r{fcppt::no_init{}};
+      for (std::size_t i = 0; i < N; ++i)
+      {
+        r.max().get_unsafe(i) = static_cast<int>(l[i] + l[N + i]);
+        r.pos().get_unsafe(i) = static_cast<int>(l[i]);
+      }
+      return r;
+    }
+    }
+  }
+  static std::string extra(type const &a, type const &b)
+  {
+    // what == must agree with: the observable components
+    bool const comps = a.pos() == b.pos() && a.max() == b.max() && a.size() == b.size();
+    return std::string{" comps="} + b01(comps);
   }
 };
+using box2_tr = box_tr<2>;
+using box3_tr = box_tr<3>;
 
+template <std::size_t N>
 struct sph_tr : base_tr
 {
-  using type = fcppt::math::sphere::object<int, 2>;
-  static std::optional<type> make(V const &l)
+  using type = fcppt::math::sphere::object<int, N>;
+  using point = typename type::point_type;
+  static constexpr unsigned routes = 2;
+  static std::optional<type> make(V const &l, unsigned route = 0)
   {
-    if (l.size() != 3)
+    if (l.size() != N + 1)
       return std::nullopt;
-    return type{type::point_type{static_cast<int>(l[0]), static_cast<int>(l[1])}, static_cast<int>(l[2])};
+    if (route % routes == 0)
+      return type{make_math<point, N>(l, 0), static_cast<int>(l[N])};
+    V other(l);
+    for (long long &x : other)
+      x = 9 - x;
+    type r{make_math<point, N>(other, 0), static_cast<int>(other[N])};
+    r.radius() = static_cast<int>(l[N]);
+    r.origin() = make_math_by_element<point, N>(l, 0);
+    return r;
   }
 };
+using sph2_tr = sph_tr<2>;
+using sph3_tr = sph_tr<3>;
 
-struct bf_tr : base_tr
+// bitfield over Enum in 8-bit words; the three encoded membership bits are those of the enumerators I0, I1, I2
+// (bf3: 0,1,2 - one word, 5 padding bits; bf9: 0,7,8 - two words, the second with 7 padding bits)
+template <typename Enum, unsigned I0, unsigned I1, unsigned I2, unsigned Size>
+struct bf_tr_t : base_tr
 {
-  using type = fcppt::container::bitfield::object<e3, std::uint8_t>;
+  using type = fcppt::container::bitfield::object<Enum, std::uint8_t>;
   static constexpr bool has_hash = true;
-  static std::optional<type> make(V const &l)
+  static std::optional<type> make(V const &l, unsigned = 0)
   {
     if (l.size() != 4)
       return std::nullopt;
@@ -499,13 +1008,20 @@ struct bf_tr : base_tr
         return std::nullopt;
     if (l[3] < 0 || l[3] > 2)
       return std::nullopt;
+    unsigned const idx[3] = {I0, I1, I2};
     type mem{type::null()};
     type co{type::null()};
-    for (unsigned i = 0; i < 3; ++i)
-      if (l[i] == 1)
-        mem |= type{static_cast<e3>(i)};
+    for (unsigned e = 0; e < Size; ++e)
+    {
+      bool in = false;
+      for (unsigned i = 0; i < 3; ++i)
+        if (idx[i] == e && l[i] == 1)
+          in = true;
+      if (in)
+        mem |= type{static_cast<Enum>(e)};
       else
-        co |= type{static_cast<e3>(i)};
+        co |= type{static_cast<Enum>(e)};
+    }
     if (l[3] == 0)
       return mem;
     if (l[3] == 1)
@@ -519,8 +1035,8 @@ struct bf_tr : base_tr
   static unsigned mask(type const &v)
   {
     unsigned m = 0;
-    for (unsigned i = 0; i < 3; ++i)
-      if (v.get(static_cast<e3>(i)))
+    for (unsigned i = 0; i < Size; ++i)
+      if (v.get(static_cast<Enum>(i)))
         m |= 1U << i;
     return m;
   }
@@ -529,36 +1045,99 @@ struct bf_tr : base_tr
     return " m=" + std::to_string(mask(a)) + "," + std::to_string(mask(b));
   }
 };
+using bf_tr = bf_tr_t<e3, 0, 1, 2, 3>;
+using bf9_tr = bf_tr_t<e9, 0, 7, 8, 9>;
 
+template <std::size_t N>
 struct grid_tr : base_tr
 {
-  using type = fcppt::container::grid::object<int, 2>;
+  using type = fcppt::container::grid::object<int, N>;
+  using gdim = typename type::dim;
+  using gpos = typename type::pos;
   static constexpr bool has_lt = true;
   static constexpr bool has_six = true;
-  static std::optional<type> make(V const &l)
+  static constexpr unsigned routes = 4;
+  static gdim mkdim(V const &l)
   {
-    if (l.size() < 2 || l[0] < 0 || l[1] < 0 || l[0] > 64 || l[1] > 64)
+    gdim d{fcppt::no_init{}};
+    for (std::size_t i = 0; i < N; ++i)
+      d.get_unsafe(i) = static_cast<typename type::size_type>(l[i]);
+    return d;
+  }
+  static std::optional<type> make(V const &l, unsigned route = 0)
+  {
+    if (l.size() < N)
       return std::nullopt;
-    if (l.size() - 2 != static_cast<std::size_t>(l[0] * l[1]))
-      return std::nullopt;
-    type g{type::dim{static_cast<type::size_type>(l[0]), static_cast<type::size_type>(l[1])}, 0};
-    std::size_t k = 2;
-    for (auto &e : g)
+    std::size_t content = 1;
+    for (std::size_t i = 0; i < N; ++i)
     {
-      if (k >= l.size())
+      if (l[i] < 0 || l[i] > 64)
         return std::nullopt;
-      e = static_cast<int>(l[k++]);
+      content *= static_cast<std::size_t>(l[i]);
     }
-    if (k != l.size())
+    if (l.size() - N != content)
       return std::nullopt;
-    return g;
+    gdim const d{mkdim(l)};
+    auto const fill = [&l](type &g)
+    {
+      std::size_t k = N;
+      for (auto &e : g)
+        e = static_cast<int>(l[k++]);
+    };
+    switch (route % routes)
+    {
+    case 0:
+    {
+      type g{d, 0};
+      fill(g);
+      return g;
+    }
+    case 1:
+      // initialised by a function of the position (x runs fastest)
+      return type{d, [&l, &d](gpos const &p)
+                  {
+                    std::size_t idx = 0, stride = 1;
+                    for (std::size_t i = 0; i < N; ++i)
+                    {
+                      idx += static_cast<std::size_t>(p.get_unsafe(i)) * stride;
+                      stride *= static_cast<std::size_t>(d.get_unsafe(i));
+                    }
+                    return static_cast<int>(l[N + idx]);
+                  }};
+    case 2:
+    {
+      // copy-assigned over a larger grid with other content
+      V big(N, 3);
+      type g{mkdim(big), 7};
+      type src{d, 0};
+      fill(src);
+      g = src;
+      return g;
+    }
+    default:
+    {
+      // move-assigned over a default-constructed (empty) grid, then swapped twice
+      type g{};
+      type src{d, 8};
+      fill(src);
+      g = std::move(src);
+      type other{d, 5};
+      g.swap(other);
+      swap(g, other);
+      return g;
+    }
+    }
   }
 };
+using grid1_tr = grid_tr<1>;
+using grid2_tr = grid_tr<2>;
+using grid3_tr = grid_tr<3>;
 
 struct tree_tr : base_tr
 {
   using type = fcppt::container::tree::object<int>;
-  static bool parse(V const &l, std::size_t &pos, type &node, unsigned depth)
+  static constexpr unsigned routes = 3;
+  static bool parse(V const &l, std::size_t &pos, type &node, unsigned depth, unsigned route)
   {
     // node already carries its value; read the number of children and the children
     if (depth > 64 || pos >= l.size())
@@ -566,35 +1145,76 @@ struct tree_tr : base_tr
     long long const k = l[pos++];
     if (k < 0 || k > 64)
       return false;
+    std::vector<type> kids;
     for (long long i = 0; i < k; ++i)
     {
       if (pos >= l.size())
         return false;
       type child{static_cast<int>(l[pos++])};
-      if (!parse(l, pos, child, depth + 1))
+      if (!parse(l, pos, child, depth + 1, route))
         return false;
-      if (i % 2 == 0)
-        node.push_back(std::move(child));
-      else
-      {
-        // through the value overload when the child is a leaf
-        if (child.empty())
-          node.push_back(child.value());
+      kids.push_back(std::move(child));
+    }
+    if (route == 0)
+    {
+      for (std::size_t i = 0; i < kids.size(); ++i)
+        if (i % 2 == 1 && kids[i].empty())
+          node.push_back(kids[i].value()); // through the value overload when the child is a leaf
         else
-          node.push_back(std::move(child));
+          node.push_back(std::move(kids[i]));
+    }
+    else if (route == 1)
+    {
+      // back to front with push_front
+      for (std::size_t i = kids.size(); i-- > 0;)
+        if (i % 2 == 0 && kids[i].empty())
+          node.push_front(kids[i].value());
+        else
+          node.push_front(std::move(kids[i]));
+    }
+    else
+    {
+      // insert in front of end(), with surplus children that are removed again (erase, pop_front, pop_back, release)
+      node.push_back(41);
+      for (auto &kid : kids)
+      {
+        node.insert(node.end(), std::move(kid));
+        node.insert(node.end(), 42);
+        auto last = node.end();
+        --last;
+        if (node.size() % 2 == 0)
+          node.erase(last);
+        else
+          (void)node.release(last);
       }
+      (void)node.pop_front();
+      node.push_back(43);
+      (void)node.pop_back();
     }
     return true;
   }
-  static std::optional<type> make(V const &l)
+  static std::optional<type> make(V const &l, unsigned route = 0)
   {
     if (l.size() < 2)
       return std::nullopt;
     std::size_t pos = 1;
     type root{static_cast<int>(l[0])};
-    if (!parse(l, pos, root, 0) || pos != l.size())
+    if (route % routes == 2)
+    {
+      root.value(static_cast<int>(l[0]) ^ 1);
+      root.value() ^= 1;
+    }
+    if (!parse(l, pos, root, 0, route % routes) || pos != l.size())
       return std::nullopt;
     return root;
+  }
+  // the children of a compared IN PLACE (they have a parent) with b, both ways
+  static std::string extra(type const &a, type const &b)
+  {
+    std::string r = " sub=";
+    for (type const &c : a)
+      r += b01(c == b) + b01(b == c) + b01(c != b) + b01(c == a);
+    return r;
   }
 };
 
@@ -604,12 +1224,61 @@ struct rv_tr : base_tr
   static constexpr bool has_lt = true;
   static constexpr bool has_six = true;
   static constexpr bool has_hash = true;
-  static std::optional<type> make(V const &l)
+  static constexpr unsigned routes = 5;
+  static std::optional<type> make(V const &l, unsigned route = 0)
   {
-    type r{};
+    std::vector<int> v;
     for (long long x : l)
-      r.push_back(static_cast<int>(x));
-    return std::optional<type>{std::move(r)};
+      v.push_back(static_cast<int>(x));
+    switch (route % routes)
+    {
+    case 0:
+    {
+      type r{};
+      for (int x : v)
+        r.push_back(x);
+      return std::optional<type>{std::move(r)};
+    }
+    case 1:
+    {
+      type r(v.begin(), v.end()); // exact capacity
+      return std::optional<type>{std::move(r)};
+    }
+    case 2:
+    {
+      // spare capacity holding stale elements behind size()
+      type r{};
+      r.reserve(16);
+      for (int x : v)
+        r.push_back(x);
+      r.push_back(91);
+      r.push_back(92);
+      r.pop_back();
+      r.pop_back();
+      return std::optional<type>{std::move(r)};
+    }
+    case 3:
+    {
+      // resize up, overwrite, shrink; then erase a surplus element in front
+      type r(v.size() + 3, 93);
+      for (std::size_t i = 0; i < v.size(); ++i)
+        r[i + 1] = v[i];
+      r.resize(v.size() + 1, 0);
+      r.erase(r.begin());
+      return std::optional<type>{std::move(r)};
+    }
+    default:
+    {
+      // built back to front with insert(begin), then moved
+      type r{94, 95};
+      r.clear();
+      for (std::size_t i = v.size(); i-- > 0;)
+        r.insert(r.begin(), v[i]);
+      type moved{std::move(r)};
+      moved.shrink_to_fit();
+      return std::optional<type>{std::move(moved)};
+    }
+    }
   }
   static std::size_t hash(type const &v, bool &) { return fcppt::range::hash<type>{}(v); }
 };
@@ -622,17 +1291,36 @@ struct ref_tr : base_tr
   using type = fcppt::reference<int>;
   static constexpr bool has_lt = true;
   static constexpr bool has_hash = true;
-  static std::optional<type> make(V const &l)
+  static constexpr unsigned routes = 3;
+  static std::optional<type> make(V const &l, unsigned route = 0)
   {
     if (l.size() != 1 || l[0] < 0 || l[0] > 2)
       return std::nullopt;
-    if (l[0] == 1)
-      return type{g_objs[1]};
-    return fcppt::make_ref(g_objs[l[0]]);
+    switch (route % routes)
+    {
+    case 0:
+      return fcppt::make_ref(g_objs[l[0]]);
+    case 1:
+      return type{g_objs[l[0]]};
+    default:
+    {
+      type r{g_objs[(l[0] + 1) % 3]};
+      type const src{g_objs[l[0]]};
+      r = src; // rebinding: the wrapper is assigned, not the referent
+      return r;
+    }
+    }
   }
   static std::size_t hash(type const &v, bool &ok)
   {
     return agree(fcppt::reference_hash<type>{}(v), std_hash(v), ok);
+  }
+  // reference_to_const keeps the referent
+  static std::string extra(type const &a, type const &b)
+  {
+    fcppt::reference<int const> const ca{fcppt::reference_to_const(a)};
+    fcppt::reference<int const> const cb{fcppt::reference_to_const(b)};
+    return " const=" + b01(ca == cb) + b01(ca != cb) + b01(ca < cb) + b01(&ca.get() == &a.get());
   }
 };
 
@@ -641,14 +1329,53 @@ struct sp_tr : base_tr
   using type = fcppt::shared_ptr<int>;
   static constexpr bool has_lt = true;
   static constexpr bool has_hash = true;
-  static std::optional<type> make(V const &l)
+  static constexpr unsigned routes = 3;
+  // i,o: o < 2: stored pointer &g_objs[i], owner o (aliasing constructor; two unrelated owners)
+  //      o = 2: stored pointer null; i = 0: empty (moved-from), i = 1, 2: owner i-1 with a null stored pointer
+  static type direct(long long i, long long o)
   {
-    if (l.size() != 2 || l[0] < 0 || l[0] > 2 || l[1] < 0 || l[1] > 1)
-      return std::nullopt;
-    // two unrelated owners; the stored pointer designates g_objs[i] (aliasing constructor)
     static type const owner0{fcppt::make_shared_ptr<int>(0)};
     static type const owner1{fcppt::make_shared_ptr<int>(1)};
-    return type{l[1] == 0 ? owner0 : owner1, &g_objs[l[0]]};
+    if (o == 2)
+    {
+      if (i == 0)
+      {
+        type from{fcppt::make_shared_ptr<int>(3)};
+        type const to{std::move(from)};
+        return from;
+      }
+      return type{i == 1 ? owner0 : owner1, nullptr};
+    }
+    return type{o == 0 ? owner0 : owner1, &g_objs[i]};
+  }
+  static std::optional<type> make(V const &l, unsigned route = 0)
+  {
+    if (l.size() != 2 || l[0] < 0 || l[0] > 2 || l[1] < 0 || l[1] > 2)
+      return std::nullopt;
+    switch (route % routes)
+    {
+    case 0:
+      return direct(l[0], l[1]);
+    case 1:
+    {
+      type r{direct((l[0] + 1) % 3, (l[1] + 1) % 2)};
+      type const src{direct(l[0], l[1])};
+      r = src; // copy assignment over another pointer
+      type &self = r;
+      r = self;
+      return r;
+    }
+    default:
+    {
+      type src{direct(l[0], l[1])};
+      type r{fcppt::make_shared_ptr<int>(4)};
+      r = std::move(src); // move assignment
+      type other{direct((l[0] + 1) % 3, 0)};
+      r.swap(other);
+      swap(r, other);
+      return r;
+    }
+    }
   }
   static std::size_t hash(type const &v, bool &ok)
   {
@@ -656,6 +1383,70 @@ struct sp_tr : base_tr
     // the hash may not depend on how many owners there are at the moment
     type const another_owner{v};
     return agree(h1, fcppt::shared_ptr_hash<type>{}(v), ok);
+  }
+};
+
+// a nested composition: optional< variant< optional<int>, vector<int,2> > > - every level uses the fcppt operator of the
+// level below.  Encoding: - nothing; 0 just(nothing); 0,x just(just x); 1,x,y just(vector(x,y))
+struct nest_tr : base_tr
+{
+  using inner_opt = fcppt::optional::object<int>;
+  using vec = fcppt::math::vector::static_<int, 2>;
+  using var = fcppt::variant::object<inner_opt, vec>;
+  using type = fcppt::optional::object<var>;
+  static constexpr bool has_lt = true;
+  static constexpr unsigned routes = 2;
+  static std::optional<type> make(V const &l, unsigned route = 0)
+  {
+    auto const wrap = [route](var &&v) -> type
+    {
+      if (route % routes == 0)
+        return type{std::move(v)};
+      type r{var{vec{7, 7}}};
+      r = type{std::move(v)}; // assigned over another alternative
+      return r;
+    };
+    if (l.empty())
+    {
+      if (route % routes == 0)
+        return type{};
+      type r{var{inner_opt{3}}};
+      r = type{};
+      return r;
+    }
+    if (l.size() == 1 && l[0] == 0)
+      return wrap(var{inner_opt{}});
+    if (l.size() == 2 && l[0] == 0)
+      return wrap(var{inner_opt{static_cast<int>(l[1])}});
+    if (l.size() == 3 && l[0] == 1)
+      return wrap(var{vec{static_cast<int>(l[1]), static_cast<int>(l[2])}});
+    return std::nullopt;
+  }
+};
+
+struct unit_tr : base_tr
+{
+  using type = fcppt::unit;
+  static std::optional<type> make(V const &l, unsigned = 0)
+  {
+    if (!l.empty())
+      return std::nullopt;
+    return type{};
+  }
+};
+
+// ranges over the elements of one array: begin i, end j (i <= j <= 2)
+struct itr_tr : base_tr
+{
+  using type = fcppt::iterator::range<int const *>;
+  static constexpr unsigned routes = 2;
+  static std::optional<type> make(V const &l, unsigned route = 0)
+  {
+    if (l.size() != 2 || l[0] < 0 || l[1] > 2 || l[0] > l[1])
+      return std::nullopt;
+    if (route % routes == 0)
+      return type{&g_objs[0] + l[0], &g_objs[0] + l[1]};
+    return fcppt::iterator::make_range(static_cast<int const *>(&g_objs[0] + l[0]), static_cast<int const *>(&g_objs[0] + l[1]));
   }
 };
 
@@ -681,9 +1472,10 @@ struct engine
       if (e)
       {
         bool ok = true;
+        g_hash_mismatch = false;
         std::size_t const h1 = Tr::hash(a, ok);
         std::size_t const h2 = Tr::hash(b, ok);
-        r += " heq=" + b01(ok && h1 == h2);
+        r += " heq=" + b01(ok && !g_hash_mismatch && h1 == h2);
       }
       else
         r += " heq=-";
@@ -693,13 +1485,53 @@ struct engine
     return r + Tr::extra(a, b);
   }
 
-  static std::string rel(V const &a, V const &b)
+  // route bit 3: the object lives in a buffer that was filled with a byte pattern before (whatever the constructor does
+  // not write - padding, the bytes of an inactive alternative - keeps the pattern); the low bits select Tr's route
+  struct slot
   {
-    auto const x = Tr::make(a);
-    auto const y = Tr::make(b);
+    alignas(T) unsigned char buf[sizeof(T)];
+    T *p{nullptr};
+    slot() = default;
+    slot(slot const &) = delete;
+    slot &operator=(slot const &) = delete;
+    ~slot()
+    {
+      if (p != nullptr)
+        p->~T();
+    }
+    T &put(T &&x, V const &l, unsigned char pattern)
+    {
+      std::memset(buf, pattern, sizeof buf);
+      if constexpr (std::is_same_v<decltype(Tr::make_in(nullptr, l)), std::nullptr_t>)
+        p = new (buf) T(std::move(x));
+      else
+        p = Tr::make_in(buf, l); // value constructor in place: padding and inactive bytes keep the pattern
+      return *p;
+    }
+  };
+
+  static std::string rel(V const &a, V const &b, unsigned ra = 0, unsigned rb = 0)
+  {
+    auto x = Tr::make(a, ra & 7U);
+    auto y = Tr::make(b, rb & 7U);
     if (!x || !y)
       return "bad-op";
-    return obs(*x, *y);
+    slot sx, sy;
+    T const &rx = (ra & 8U) != 0U ? sx.put(std::move(*x), a, 0xAB) : *x;
+    T const &ry = (rb & 8U) != 0U ? sy.put(std::move(*y), b, 0x5C) : *y;
+    return obs(rx, ry);
+  }
+
+  // the SAME object on both sides of every operator
+  static std::string self(V const &a, unsigned ra)
+  {
+    auto x = Tr::make(a, ra & 7U);
+    if (!x)
+      return "bad-op";
+    slot sx;
+    T const &r1 = (ra & 8U) != 0U ? sx.put(std::move(*x), a, 0xAB) : *x;
+    T const &r2 = r1;
+    return obs(r1, r2);
   }
 
   static void all_lists(unsigned k, V &cur, std::vector<V> &out)
@@ -729,15 +1561,51 @@ struct engine
     return out;
   }
 
-  static std::string rels(unsigned maxlen, V const &a)
+  static std::string rels(unsigned maxlen, V const &a, unsigned ra = 0, unsigned rb = 0)
   {
     if (!Tr::make(a))
       return "bad-op";
     std::vector<V> const d{domain(maxlen)};
     std::uint64_t h = vh::fnv_init;
     for (V const &b : d)
-      h = vh::fnv(h, rel(a, b));
+      h = vh::fnv(h, rel(a, b, ra, rb));
     return "D n=" + std::to_string(d.size()) + " " + vh::hex64(h);
+  }
+
+  static std::string selfs(unsigned maxlen, unsigned ra)
+  {
+    std::vector<V> const d{domain(maxlen)};
+    std::uint64_t h = vh::fnv_init;
+    for (V const &a : d)
+      h = vh::fnv(h, self(a, ra));
+    return "D n=" + std::to_string(d.size()) + " " + vh::hex64(h);
+  }
+
+  // boundary values of the component at position pos: all pairs (u, v), the other components as in base
+  static std::string relb(V const &base, std::size_t pos, unsigned kind)
+  {
+    static long long const b16[] = {-32768, -32767, -257, -256, -129, -128, -1, 0, 1, 127, 128, 255, 256, 32766, 32767};
+    static long long const b32[] = {-2147483647LL - 1, -2147483647LL, -16777217, -16777216, -65537, -65536, -32769, -32768, -1, 0, 1,
+                                    32767, 32768, 65535, 65536, 16777216, 16777217, 2147483646, 2147483647};
+    if (pos >= base.size() || kind > 1 || !Tr::make(base))
+      return "bad-op";
+    std::uint64_t h = vh::fnv_init;
+    auto const run = [&](auto const &vals)
+    {
+      for (long long u : vals)
+        for (long long v : vals)
+        {
+          V a(base), b(base);
+          a[pos] = u;
+          b[pos] = v;
+          h = vh::fnv(h, rel(a, b, static_cast<unsigned>(u & 11), static_cast<unsigned>(v & 9)));
+        }
+    };
+    if (kind == 0)
+      run(b16);
+    else
+      run(b32);
+    return "D " + vh::hex64(h);
   }
 
   struct el
@@ -789,7 +1657,7 @@ struct engine
     std::vector<T> vals;
     vals.reserve(d.size());
     for (V const &v : d)
-      vals.push_back(std::move(*Tr::make(v)));
+      vals.push_back(std::move(*Tr::make(v, static_cast<unsigned>(vals.size())))); // the routes alternate
     std::size_t const n = vals.size();
     std::vector<el> row(n), col(n), mat(n * n);
     for (std::size_t i = 0; i < n; ++i)
@@ -827,12 +1695,47 @@ struct engine
   {
     if (t[0] == "rel" && t.size() == 4)
       return rel(vh::int_list(t[2]), vh::int_list(t[3]));
+    if (t[0] == "relr" && t.size() == 6)
+    {
+      unsigned long long const ra = vh::to_ull(t[2]), rb = vh::to_ull(t[3]);
+      if (ra > 15 || rb > 15)
+        return "bad-op";
+      return rel(vh::int_list(t[4]), vh::int_list(t[5]), static_cast<unsigned>(ra), static_cast<unsigned>(rb));
+    }
     if (t[0] == "rels" && t.size() == 4)
     {
       unsigned long long const ml = vh::to_ull(t[2]);
       if (ml > 8)
         return "bad-op";
       return rels(static_cast<unsigned>(ml), vh::int_list(t[3]));
+    }
+    if (t[0] == "relsr" && t.size() == 6)
+    {
+      unsigned long long const ml = vh::to_ull(t[2]), ra = vh::to_ull(t[3]), rb = vh::to_ull(t[4]);
+      if (ml > 8 || ra > 15 || rb > 15)
+        return "bad-op";
+      return rels(static_cast<unsigned>(ml), vh::int_list(t[5]), static_cast<unsigned>(ra), static_cast<unsigned>(rb));
+    }
+    if (t[0] == "self" && t.size() == 4)
+    {
+      unsigned long long const ra = vh::to_ull(t[2]);
+      if (ra > 15)
+        return "bad-op";
+      return self(vh::int_list(t[3]), static_cast<unsigned>(ra));
+    }
+    if (t[0] == "selfs" && t.size() == 4)
+    {
+      unsigned long long const ml = vh::to_ull(t[2]), ra = vh::to_ull(t[3]);
+      if (ml > 8 || ra > 15)
+        return "bad-op";
+      return selfs(static_cast<unsigned>(ml), static_cast<unsigned>(ra));
+    }
+    if (t[0] == "relb" && t.size() == 5)
+    {
+      unsigned long long const pos = vh::to_ull(t[3]), kind = vh::to_ull(t[4]);
+      if (pos > 64 || kind > 1)
+        return "bad-op";
+      return relb(vh::int_list(t[2]), static_cast<std::size_t>(pos), static_cast<unsigned>(kind));
     }
     if (t[0] == "tri" && t.size() == 4)
     {
@@ -847,19 +1750,29 @@ struct engine
   }
 };
 
+struct wrap_base
+{
+  virtual ~wrap_base() = default;
+  int v{0};
+};
+struct wrap_derived : wrap_base
+{
+};
+
 std::string wrap_line(int x)
 {
+  int const other = x ^ 1;
   int obj = x;
   fcppt::reference<int> const r{obj};
   bool same = &r.get() == &obj && r.operator->() == &obj;
   // writing through the reference changes the object, and the other way round
-  r.get() = x == 5 ? 6 : 5;
-  same = same && obj == (x == 5 ? 6 : 5);
+  r.get() = other;
+  same = same && obj == other;
   obj = x;
   same = same && r.get() == x;
   fcppt::recursive<int> const rec{x};
   fcppt::recursive<int> rec2{rec}; // deep copy: changing the copy leaves the original alone
-  rec2.get() = x == 0 ? 1 : 0;
+  rec2.get() = other;
   fcppt::unique_ptr<int> const up{fcppt::make_unique_ptr<int>(x)};
   fcppt::shared_ptr<int> const sp{fcppt::make_shared_ptr<int>(x)};
   fcppt::shared_ptr<int> const sp2{sp};
@@ -867,9 +1780,108 @@ std::string wrap_line(int x)
                     up.operator->() == up.get_pointer() && sp.operator->() == sp.get_pointer();
   using st = fcppt::strong_typedef<int, st_tag>;
   using iso = fcppt::type_iso::transform<st>;
-  return "ref=" + std::to_string(r.get()) + " same=" + b01(same && ptrs) + " rec=" + std::to_string(rec.get()) +
-         " uniq=" + std::to_string(*up) + " shared=" + std::to_string(*sp2) +
-         " iso=" + std::to_string(iso::undecorate(iso::decorate(x)));
+  std::string s = "ref=" + std::to_string(r.get()) + " same=" + b01(same && ptrs) + " rec=" + std::to_string(rec.get()) +
+                  " uniq=" + std::to_string(*up) + " shared=" + std::to_string(*sp2) +
+                  " iso=" + std::to_string(iso::undecorate(iso::decorate(x)));
+  // recursive: every constructor and assignment operator (copy / assign / self-assign / move)
+  {
+    s += " reccopy=" + std::to_string(rec2.get()) + "/" + std::to_string(rec.get());
+    fcppt::recursive<int> src{x};
+    fcppt::recursive<int> dst{other};
+    int const *const before = &dst.get();
+    fcppt::recursive<int> &q = (dst = src);
+    src.get() = other; // the source changes afterwards: the target keeps its own object
+    s += " recasg=" + std::to_string(dst.get()) + "/" + std::to_string(src.get()) + (&q == &dst ? "" : "!ref") +
+         (&dst.get() != &src.get() ? "" : "!shared");
+    (void)before;
+    fcppt::recursive<int> &self = dst;
+    int const *const addr = &dst.get();
+    dst = self;
+    s += " recself=" + std::to_string(dst.get()) + (addr == &dst.get() ? "" : "!moved");
+    int const *const cell = &dst.get();
+    fcppt::recursive<int> mv{std::move(dst)};
+    fcppt::recursive<int> mv2{0};
+    mv2 = std::move(mv);
+    s += " recmv=" + std::to_string(mv2.get()) + (cell == &mv2.get() ? "" : "!copied");
+    fcppt::recursive<int> const rv{int{x}}; // rvalue constructor
+    s += " recrv=" + std::to_string(rv.get());
+  }
+  // unique_ptr: move construction / assignment keep the object, release_ownership hands it out
+  {
+    fcppt::unique_ptr<int> a{fcppt::make_unique_ptr<int>(x)};
+    int *const p = a.get_pointer();
+    fcppt::unique_ptr<int> b{std::move(a)};
+    fcppt::unique_ptr<int> c{fcppt::make_unique_ptr<int>(other)};
+    c = std::move(b);
+    bool ok = c.get_pointer() == p && a.get_pointer() == nullptr && b.get_pointer() == nullptr;
+    *c = other;
+    ok = ok && *p == other;
+    *c = x;
+    int *const raw = c.release_ownership();
+    ok = ok && raw == p && c.get_pointer() == nullptr;
+    fcppt::unique_ptr<int> d{raw}; // the pointer constructor takes ownership again
+    fcppt::unique_ptr<int> e{std::make_unique<int>(x)};
+    fcppt::unique_ptr<int const> const f{fcppt::unique_ptr_to_const(std::move(d))};
+    ok = ok && f.get_pointer() == p;
+    fcppt::unique_ptr<wrap_derived> der{fcppt::make_unique_ptr<wrap_derived>()};
+    der->v = x;
+    wrap_derived *const dp = der.get_pointer();
+    fcppt::unique_ptr<wrap_base> const bas{fcppt::unique_ptr_to_base<wrap_base>(std::move(der))};
+    ok = ok && bas.get_pointer() == dp;
+    s += " uniq2=" + std::to_string(*f) + "/" + std::to_string(*e) + "/" + std::to_string(bas->v) + (ok ? "" : "!");
+  }
+  // shared_ptr: the other constructors and assignments, use_count, weak_ptr::lock
+  {
+    int *const raw = new int{x};
+    fcppt::shared_ptr<int> a{raw};
+    bool ok = a.get_pointer() == raw && a.unique() && a.use_count() == 1;
+    fcppt::shared_ptr<int> b{a};
+    ok = ok && a.use_count() == 2 && !a.unique() && b.std_ptr().get() == raw;
+    fcppt::weak_ptr<int> const w{a};
+    ok = ok && w.use_count() == 2 && !w.expired();
+    {
+      auto const locked{w.lock()};
+      ok = ok && locked.has_value() && locked.get_unsafe().get_pointer() == raw && a.use_count() == 3;
+      // (the constructor shared_ptr(weak_ptr const &) does not instantiate: it hands the fcppt::weak_ptr to std::shared_ptr)
+    }
+    fcppt::unique_ptr<int> u{fcppt::make_unique_ptr<int>(x)};
+    int *const up2 = u.get_pointer();
+    fcppt::shared_ptr<int> c{std::move(u)};
+    ok = ok && c.get_pointer() == up2 && u.get_pointer() == nullptr;
+    fcppt::unique_ptr<int> u2{fcppt::make_unique_ptr<int>(x)};
+    int *const up3 = u2.get_pointer();
+    b = std::move(u2); // assignment from a unique_ptr: b lets go of raw
+    ok = ok && b.get_pointer() == up3 && a.use_count() == 1;
+    fcppt::shared_ptr<int> const s1{std::unique_ptr<int, fcppt::default_deleter>{new int{x}}};
+    fcppt::shared_ptr<wrap_derived> const der{fcppt::make_shared_ptr<wrap_derived>()};
+    der->v = x;
+    fcppt::shared_ptr<wrap_base> const bas{der}; // converting constructor
+    ok = ok && bas.get_pointer() == der.get_pointer() && der.use_count() == 2 && bas == der && !(bas != der) && !(bas < der) &&
+         !(der < bas);
+    // the pointer casts keep the object and share the ownership
+    {
+      fcppt::shared_ptr<wrap_derived> const back{fcppt::static_pointer_cast<wrap_derived>(bas)};
+      auto const dyn{fcppt::dynamic_pointer_cast<wrap_derived>(bas)};
+      fcppt::shared_ptr<wrap_base> const plain{fcppt::make_shared_ptr<wrap_base>()};
+      auto const dyn_fail{fcppt::dynamic_pointer_cast<wrap_derived>(plain)};
+      fcppt::shared_ptr<int const> const ca{a};
+      fcppt::shared_ptr<int> const cc{fcppt::const_pointer_cast<int>(ca)};
+      ok = ok && back.get_pointer() == der.get_pointer() && dyn.has_value() && dyn.get_unsafe() == der && !dyn_fail.has_value() &&
+           cc.get_pointer() == a.get_pointer() && cc == a && der.use_count() == 4 && back->v == x;
+      wrap_derived obj{};
+      obj.v = x;
+      fcppt::reference<wrap_derived> const rd{obj};
+      fcppt::reference<wrap_base> const rb{fcppt::reference_to_base<wrap_base>(rd)};
+      fcppt::reference<wrap_base const> const rc{fcppt::make_cref(static_cast<wrap_base const &>(obj))};
+      ok = ok && &rb.get() == &obj && rb->v == x && &rc.get() == &rb.get() && fcppt::reference_to_const(rb) == rc;
+    }
+    int const va = *a, vb = *b, vc = *c;
+    a = c; // copy assignment: raw dies, a shows c's object
+    ok = ok && w.expired() && !w.lock().has_value() && a.get_pointer() == up2 && c.use_count() == 2;
+    s += " sh2=" + std::to_string(va) + "/" + std::to_string(vb) + "/" + std::to_string(vc) + "/" + std::to_string(*s1) + "/" +
+         std::to_string(bas->v) + "/" + std::to_string(*a) + (ok ? "" : "!");
+  }
+  return s;
 }
 
 std::string handle(std::vector<std::string> const &t)
@@ -878,9 +1890,9 @@ std::string handle(std::vector<std::string> const &t)
     return "bad-op";
   try
   {
-    if (t[0] == "st" || t[0] == "sts")
+    if (t[0] == "st" || t[0] == "sts" || t[0] == "stself" || t[0] == "stselfs" || t[0] == "stmem" || t[0] == "stmems")
     {
-      if (t.size() < 4)
+      if (t.size() < 3)
         return "bad-op";
       if (t[1] == "i32")
         return st_inst<int>::handle(t);
@@ -890,6 +1902,14 @@ std::string handle(std::vector<std::string> const &t)
         return st_inst<long>::handle(t);
       if (t[1] == "u64")
         return st_inst<unsigned long>::handle(t);
+      if (t[1] == "i8")
+        return st_inst<signed char>::handle(t);
+      if (t[1] == "u8")
+        return st_inst<unsigned char>::handle(t);
+      if (t[1] == "i16")
+        return st_inst<short>::handle(t);
+      if (t[1] == "u16")
+        return st_inst<unsigned short>::handle(t);
       return "bad-op";
     }
     if (t[0] == "wrap" && t.size() == 2)
@@ -909,15 +1929,27 @@ std::string handle(std::vector<std::string> const &t)
     if (ty == "arr") return engine<arr_tr>::handle(t);
     if (ty == "rec") return engine<rec_tr>::handle(t);
     if (ty == "sti") return engine<sti_tr>::handle(t);
+    if (ty == "vec1") return engine<vec1_tr>::handle(t);
     if (ty == "vec2") return engine<vec2_tr>::handle(t);
     if (ty == "vec3") return engine<vec3_tr>::handle(t);
+    if (ty == "vec4") return engine<vec4_tr>::handle(t);
     if (ty == "dim2") return engine<dim2_tr>::handle(t);
-    if (ty == "mat22") return engine<mat_tr>::handle(t);
-    if (ty == "box2") return engine<box_tr>::handle(t);
-    if (ty == "sph2") return engine<sph_tr>::handle(t);
+    if (ty == "dim3") return engine<dim3_tr>::handle(t);
+    if (ty == "mat22") return engine<mat22_tr>::handle(t);
+    if (ty == "mat23") return engine<mat23_tr>::handle(t);
+    if (ty == "box2") return engine<box2_tr>::handle(t);
+    if (ty == "box3") return engine<box3_tr>::handle(t);
+    if (ty == "sph2") return engine<sph2_tr>::handle(t);
+    if (ty == "sph3") return engine<sph3_tr>::handle(t);
     if (ty == "bf3") return engine<bf_tr>::handle(t);
+    if (ty == "bf9") return engine<bf9_tr>::handle(t);
     if (ty == "earr") return engine<earr_tr>::handle(t);
-    if (ty == "grid") return engine<grid_tr>::handle(t);
+    if (ty == "grid") return engine<grid2_tr>::handle(t);
+    if (ty == "grid1") return engine<grid1_tr>::handle(t);
+    if (ty == "grid3") return engine<grid3_tr>::handle(t);
+    if (ty == "unit") return engine<unit_tr>::handle(t);
+    if (ty == "nest") return engine<nest_tr>::handle(t);
+    if (ty == "itr") return engine<itr_tr>::handle(t);
     if (ty == "tree") return engine<tree_tr>::handle(t);
     if (ty == "rv") return engine<rv_tr>::handle(t);
     if (ty == "ref") return engine<ref_tr>::handle(t);
